@@ -1,6 +1,9 @@
 package t1model
 
-import "fmt"
+import (
+	"fmt"
+	"strings"
+)
 
 // UnusualNames are glyph / font names made of regular characters only that a
 // careless serialiser could mishandle.
@@ -122,6 +125,19 @@ func C10Fonts() []*Font {
 			p := []*string{&f.Info.Version, &f.Info.Notice, &f.Info.Copyright, &f.Info.FullName, &f.Info.FamilyName, &f.Info.Weight}[field]
 			*p = s
 			f.Info.EmitEmpty = s == ""
+			out = append(out, f)
+		}
+	}
+	// 5b. long strings with a character that needs an escape at every position around
+	// the lengths at which a writer might break the literal (250, 255, 256, 500, 512)
+	for _, esc := range []string{"\\", ")", "(", "\r"} {
+		for _, pos := range []int{240, 245, 246, 247, 248, 249, 250, 251, 252, 253, 254, 255, 256, 257, 495, 496, 497, 498, 499, 500, 501, 509, 510, 511, 512, 513} {
+			if esc != "\\" && pos%2 == 1 {
+				continue
+			}
+			str := strings.Repeat("x", pos) + esc + strings.Repeat("y", 620-pos)
+			f := NewFont(fmt.Sprintf("c10:620-byte Notice with %q at offset %d", esc, pos), notdef(), NewGlyph("A", 1, 0, 0))
+			f.Info.Notice = str
 			out = append(out, f)
 		}
 	}
